@@ -1,8 +1,8 @@
 package types
 
 import (
+	"bytes"
 	"encoding/binary"
-	"strings"
 
 	"github.com/cosmos/cosmos-sdk/codec"
 	sdk "github.com/cosmos/cosmos-sdk/types"
@@ -56,9 +56,10 @@ func IterateProcessedTime(store sdk.KVStore, cb func(key, val []byte) bool) {
 	defer iterator.Close()
 	for ; iterator.Valid(); iterator.Next() {
 		key := iterator.Key()
-		keySplit := strings.Split(string(key), "/")
-		// processed time key in prefix store has format: "consensusState/<height>/processedTime"
-		if len(keySplit) != 3 || keySplit[2] != "processedTime" {
+		// processed time key in prefix store has format: "consensusStates/<height>/processedTime".
+		// The height is binary (it may contain '/'), so the key cannot be split on the separator:
+		// skip the fixed-width consensus state keys and match the suffix.
+		if _, _, ok := host.ParseConsensusStateKey(key); ok || !bytes.HasSuffix(key, KeyProcessedTime) {
 			// ignore all consensus state keys
 			continue
 		}
